@@ -16,7 +16,7 @@ from tiv.sem import expand, same, same_bool, origin, literals, lit, trace
 
 RULES = {
     "MEMO": "memo safety (shared, rules/common.py): a memoised function in this property's files (or called from them) is a function of its "
-            "arguments only (no terminal/ambient/receiver state outside the key) and no caller mutates its result in place",
+            "arguments only (no terminal/ambient/receiver state outside the key) and no caller mutates its result in place; the key under which utils.cached stores a result contains `args` and `kwargs.items()` (keyword values, not only names)",
     "R1": "query sites are siblings: every request passed to query_terminal ends with DA1 (the sentinel every terminal answers); the stop "
           "predicate is either complete (`not s.endswith(b'c')`) - only where no earlier reply can contain 'c' (XTWINOPS, kitty OK) - or prefix "
           "(`not s.endswith(CSI_b)`), in which case the rest of the DA1 reply is drained by read_tty() under `if _queries_enabled` inside the same "
@@ -31,7 +31,7 @@ RULES = {
           "remaining time (timeout - elapsed, or None only for a negative = infinite timeout); the elapsed time is recomputed after every wait; the "
           "non-blocking mode (timeout None) polls with a zero select timeout; VMIN is reset to 0 after the blocking min-read",
     "R5": "style selection: _styles lists every concrete BaseImage subclass once in the documented preference order (kitty, iterm2, block; "
-          "text-based last); auto_image_class returns the first supported class, else the last; support rules use the documented names/versions; decided on the traced condition sets under which `cls._supported = True` is stored (kitty: OK reply to the graphics query and kitty >= 0.20.0 or konsole; iterm2: a truth table over terminal name x version new enough x version parse failed); the terminal name is lower-cased on every return path of get_terminal_name_version; the dotted-integer version parse runs only for konsole",
+          "text-based last); auto_image_class returns the first supported class, else the last; support rules use the documented names/versions; decided on the traced condition sets under which `cls._supported = True` is stored (kitty: OK reply to the graphics query and kitty >= 0.20.0 or konsole; iterm2: a truth table over terminal name x version new enough x version parse failed); the terminal name is lower-cased on every return path of get_terminal_name_version; the dotted-integer version parse runs only for konsole; every read of the environment in the value returned by get_terminal_name_version is selected under the negation of the XTVERSION match (the environment is only the fallback)",
 }
 U, CS, KT, IT, IM, I = "utils.py", "_ctlseqs.py", "image/kitty.py", "image/iterm2.py", "image/__init__.py", "__init__.py"
 MAY_CONTAIN_C = {"TEXT_FG_QUERY_b", "TEXT_BG_QUERY_b", "XTVERSION_b"}
